@@ -1,6 +1,6 @@
 (* C19 — property theorems only.  Each is closed by [exact] of a lemma proved in
    C19/Proofs.v and followed by Print Assumptions. *)
-From MV Require Import C19.Model C19.Proofs.
+From MV Require Import C19.Model C19.Proofs C19.ProofsLap C19.ProofsClock C19.ProofsRange.
 Local Open Scope Z_scope.
 
 (* A request is admitted exactly when fewer than n recorded requests (the n
@@ -40,6 +40,59 @@ Theorem fc_fast_agrees_with_ns : forall c u ts n f s s' ops,
 Proof. exact fc_fast_agrees. Qed.
 Print Assumptions fc_fast_agrees_with_ns.
 
+(* The ring after arbitrarily many laps, slot by slot: it keeps its n slots, the cursor stands at
+   (number of recorded requests) mod n, and slot i holds the most recent recorded stamp whose
+   position is congruent to i modulo n, always one of the last n recorded stamps (H = the n
+   virtual initial stamps followed by the recorded requests).  Every n, every timeline length:
+   no slot is ever consulted with anything but the stamp last stored in it. *)
+Theorem fc_every_slot_holds_its_last_stamp : forall u ts n f s ops,
+  init_units u ts n f = Some s ->
+  nondecr (- f * u) (map op_time ops) ->
+  let s' := fst (run s ops) in
+  let H := fst (spec_run n (ts * u) (repeat (- f * u) n) ops) in
+  length (arr s') = n /\ (n <= length H)%nat /\
+  cursor s' = ((length H - n) mod n)%nat /\
+  forall i, (i < n)%nat ->
+    nth i (arr s') 0 = nth (slot_src n (length H) i) H 0 /\
+    (length H - n <= slot_src n (length H) i < length H)%nat.
+Proof. exact fc_ring_after_laps. Qed.
+Print Assumptions fc_every_slot_holds_its_last_stamp.
+
+(* The time counter: the interval between two clock readings is their difference, whatever their
+   nanosecond parts are (start tv_nsec = 999999999 and a later reading with a smaller tv_nsec included). *)
+Theorem tc_interval_is_difference : forall a b, interval_ns (ts_of a) (ts_of b) = b - a.
+Proof. exact interval_ts_of. Qed.
+Print Assumptions tc_interval_is_difference.
+
+(* The clock-reading entry points.  A controller created when the clock reads `base` (the clock advancing by
+   st0 per read): init reads the clock exactly once; then for ANY sequence of check_and_update /
+   check_and_force_update calls, each with the clock set to base + now and advancing by its own step at every
+   read, each call leaves the clock exactly one step further (one read per call) and the verdicts are those
+   of the explicit-timestamp operations at `now` - hence, by fc_admit_iff_room, of the window specification. *)
+Theorem fc_calls_read_clock_once : forall base st0 ts n f c k' xs,
+  ns_init {| c_next := base; c_step := st0 |} ts n f = (Some c, k') ->
+  c_next k' = base + st0 /\
+  exists s, init ts n f = Some s /\ ns_fc c = s /\
+    ns_calls base c xs = combine (verdicts_of (snd (run s (map call_op xs)))) (map call_clock_after xs).
+Proof. exact ns_calls_read_clock_once. Qed.
+Print Assumptions fc_calls_read_clock_once.
+
+Theorem fc_fast_calls_read_clock_once : forall base st0 fq ts n f c k' xs,
+  fast_init {| c_next := base; c_step := st0 |} fq ts n f = (Some c, k') ->
+  c_next k' = base + st0 /\
+  exists s, init_fast fq ts n f = Some s /\ ff_fc c = s /\
+    fast_calls base c xs = combine (verdicts_of (snd (run s (map call_op xs)))) (map call_clock_after xs).
+Proof. exact fast_calls_read_clock_once. Qed.
+Print Assumptions fc_fast_calls_read_clock_once.
+
+(* Magnitudes: with |init_forward * unit| and every request time below 2^62, every stamp the ring ever holds
+   is below 2^62 in magnitude and the window is t * unit, for every operation sequence. *)
+Theorem fc_stamps_below_2_62 : forall u ts n f s ops,
+  init_units u ts n f = Some s -> B62 (- f * u) -> Forall B62 (map op_time ops) ->
+  stamps_bounded (fst (run s ops)) /\ tw (fst (run s ops)) = ts * u.
+Proof. exact fc_stamps_stay_in_range. Qed.
+Print Assumptions fc_stamps_below_2_62.
+
 (* Second tie: the C text of the four leaf functions, re-translated on this run, is the
    model (n < 2^32 is the range of the uint32_t field; wf = cursor < n). *)
 From MV Require Import Lib.Leaf C19.ProofsGen gen.Params_C19.
@@ -56,3 +109,77 @@ Theorem gen_update_matches_model : forall s now, wf s -> Z.of_nat (length (arr s
     = (arr (update s now), Z.of_nat (cursor (update s now))).
 Proof. intros s now H1 H2. split; [exact (gen_update_eq s now H1 H2)|exact (gen_fast_update_eq s now H1 H2)]. Qed.
 Print Assumptions gen_update_matches_model.
+
+(* Call-level tie: muggle_time_counter_start/_end/_interval_ns, muggle_flow_ctl_get_curr_elapsed,
+   _check_and_update, _check_and_force_update and the fast_ equivalents, re-translated from the C text on
+   this run with their callees inlined (lib/leafcalls.py), equal the call-level model: same return value,
+   same ring and time-counter fields, and of the clock readings (a :: r) exactly the first is consumed. *)
+From MV Require Import C19.GenLib C19.ProofsGenCall.
+Theorem gen_time_counter_matches_model : forall st en a r,
+  gen_muggle_time_counter_interval_ns (tv_sec st) (tv_nsec st) (tv_sec en) (tv_nsec en)
+    = (interval_ns st en, tv_sec st, tv_nsec st, tv_sec en, tv_nsec en) /\
+  gen_muggle_time_counter_start (tv_sec st) (tv_nsec st) (tv_sec en) (tv_nsec en) (a :: r)
+    = (tv_sec (ts_of a), tv_nsec (ts_of a), tv_sec en, tv_nsec en, r) /\
+  gen_muggle_time_counter_end (tv_sec st) (tv_nsec st) (tv_sec en) (tv_nsec en) (a :: r)
+    = (tv_sec st, tv_nsec st, tv_sec (ts_of a), tv_nsec (ts_of a), r).
+Proof. exact gen_time_counter_eq. Qed.
+Print Assumptions gen_time_counter_matches_model.
+
+Theorem gen_ns_calls_match_model : forall c es en a r stp,
+  wf (ns_fc c) -> Z.of_nat (length (arr (ns_fc c))) < 2 ^ 32 ->
+  let n := Z.of_nat (length (arr (ns_fc c))) in
+  let k := {| c_next := a; c_step := stp |} in
+  gen_muggle_flow_ctl_get_curr_elapsed (arr (ns_fc c)) (Z.of_nat (cursor (ns_fc c))) n (tw (ns_fc c))
+      (tv_sec (ns_start c)) (tv_nsec (ns_start c)) es en (a :: r)
+    = ns_tuple (fst (ns_curr_elapsed c k)) c n (ts_of a) r /\
+  gen_muggle_flow_ctl_check_and_update (arr (ns_fc c)) (Z.of_nat (cursor (ns_fc c))) n (tw (ns_fc c))
+      (tv_sec (ns_start c)) (tv_nsec (ns_start c)) es en (a :: r)
+    = (let '(c', b, _) := ns_check_and_update c k in ns_tuple b c' n (ts_of a) r) /\
+  gen_muggle_flow_ctl_check_and_force_update (arr (ns_fc c)) (Z.of_nat (cursor (ns_fc c))) n (tw (ns_fc c))
+      (tv_sec (ns_start c)) (tv_nsec (ns_start c)) es en (a :: r)
+    = (let '(c', b, _) := ns_check_and_force_update c k in ns_tuple b c' n (ts_of a) r).
+Proof. exact gen_ns_calls_eq. Qed.
+Print Assumptions gen_ns_calls_match_model.
+
+Theorem gen_fast_calls_match_model : forall c a r stp,
+  wf (ff_fc c) -> Z.of_nat (length (arr (ff_fc c))) < 2 ^ 32 -> ticks_ok c a ->
+  let n := Z.of_nat (length (arr (ff_fc c))) in
+  let k := {| c_next := a; c_step := stp |} in
+  gen_muggle_fast_flow_ctl_get_curr_elapsed (arr (ff_fc c)) (Z.of_nat (cursor (ff_fc c))) n (tw (ff_fc c)) (ff_start c) (a :: r)
+    = fast_tuple (fst (fast_curr_elapsed c k)) c n r /\
+  gen_muggle_fast_flow_ctl_check_and_update (arr (ff_fc c)) (Z.of_nat (cursor (ff_fc c))) n (tw (ff_fc c)) (ff_start c) (a :: r)
+    = (let '(c', b, _) := fast_check_and_update c k in fast_tuple b c' n r) /\
+  gen_muggle_fast_flow_ctl_check_and_force_update (arr (ff_fc c)) (Z.of_nat (cursor (ff_fc c))) n (tw (ff_fc c)) (ff_start c) (a :: r)
+    = (let '(c', b, _) := fast_check_and_force_update c k in fast_tuple b c' n r).
+Proof. exact gen_fast_calls_eq. Qed.
+Print Assumptions gen_fast_calls_match_model.
+
+(* No signed overflow: every signed arithmetic intermediate of the generated functions (range-check lists
+   *_chk, one irange 64 item per +, -, *, unary - on a signed type, on the executed path) is inside int64
+   when absolute clock values and request times are below 2^62 and every stored stamp is below 2^62 in
+   magnitude (fc_stamps_below_2_62 shows the latter for every run). *)
+Theorem gen_ns_no_signed_overflow : forall c es en a r now,
+  ts_ok (ns_start c) -> 0 <= a < 2 ^ 62 -> B62 now -> stamps_bounded (ns_fc c) ->
+  let s := ns_fc c in let n := Z.of_nat (length (arr s)) in let cu := Z.of_nat (cursor s) in
+  let ss := tv_sec (ns_start c) in let sn := tv_nsec (ns_start c) in
+  all_true (gen_muggle_time_counter_interval_ns_chk ss sn (tv_sec (ts_of a)) (tv_nsec (ts_of a))) /\
+  all_true (gen_muggle_time_counter_start_chk ss sn es en (a :: r)) /\
+  all_true (gen_muggle_time_counter_end_chk ss sn es en (a :: r)) /\
+  all_true (gen_muggle_flow_ctl_get_curr_elapsed_chk (arr s) cu n (tw s) ss sn es en (a :: r)) /\
+  all_true (gen_muggle_flow_ctl_check_and_update_chk (arr s) cu n (tw s) ss sn es en (a :: r)) /\
+  all_true (gen_muggle_flow_ctl_check_and_force_update_chk (arr s) cu n (tw s) ss sn es en (a :: r)) /\
+  all_true (genc_muggle_flow_ctl_check_chk (arr s) cu n (tw s) ss sn es en now) /\
+  all_true (genc_muggle_flow_ctl_update_chk (arr s) cu n (tw s) ss sn es en now).
+Proof. exact gen_ns_no_overflow. Qed.
+Print Assumptions gen_ns_no_signed_overflow.
+
+Theorem gen_fast_no_signed_overflow : forall c a r now,
+  0 <= ff_start c <= a -> a < 2 ^ 64 -> a - ff_start c < 2 ^ 62 -> B62 now -> stamps_bounded (ff_fc c) ->
+  let s := ff_fc c in let n := Z.of_nat (length (arr s)) in let cu := Z.of_nat (cursor s) in
+  all_true (gen_muggle_fast_flow_ctl_get_curr_elapsed_chk (arr s) cu n (tw s) (ff_start c) (a :: r)) /\
+  all_true (gen_muggle_fast_flow_ctl_check_and_update_chk (arr s) cu n (tw s) (ff_start c) (a :: r)) /\
+  all_true (gen_muggle_fast_flow_ctl_check_and_force_update_chk (arr s) cu n (tw s) (ff_start c) (a :: r)) /\
+  all_true (genc_muggle_fast_flow_ctl_check_chk (arr s) cu n (tw s) (ff_start c) now) /\
+  all_true (genc_muggle_fast_flow_ctl_update_chk (arr s) cu n (tw s) (ff_start c) now).
+Proof. exact gen_fast_no_overflow. Qed.
+Print Assumptions gen_fast_no_signed_overflow.
